@@ -566,6 +566,25 @@ class Gen(object):
         x = self.pick(self.U.objs)
         if x is None:
             return None
+        if self.fault() and self.chance(0.4):
+            # state-directed: an object named by its id, next to a sibling whose name is a valid id
+            import uuid as _uuid
+            hits = []
+            for o in self.nodes():
+                if o.parent is None or o.name != o.id:
+                    continue
+                sibs = o.parent.sections if kind_of(o) == "sec" else o.parent.properties
+                for sib in sibs:
+                    if sib is o or not isinstance(sib.name, str):
+                        continue
+                    try:
+                        if str(_uuid.UUID(sib.name)) == sib.name:
+                            hits.append((o, sib.name))
+                    except ValueError:
+                        pass
+            if hits:
+                o, oid = self.pick(hits)
+                return {"op": "new_id", "x": self.ref(o), "oid": oid}
         op = {"op": "new_id", "x": self.ref(x)}
         if self.chance(0.6):
             op["oid"] = self.pick(OIDS_BAD) if self.fault() else GOOD_OID
